@@ -12,3 +12,5 @@ import BalmProofs.Props.C03
 #print axioms Balm.Impl.judgeWeak_sound
 #print axioms Balm.Impl.weak_complete_leaves
 #print axioms Balm.Impl.exists_min_inside
+#print axioms Balm.Impl.judgeWeak_iff
+#print axioms Balm.Impl.judgeLeaves_iff
